@@ -172,6 +172,13 @@ func workerLoop(t *testing.T, cfg Config, progress *atomic.Int64, emit func(reco
 		// one case in three also explores the automatically inserted yields (every channel,
 		// WaitGroup, mutex and select operation of the engine), if the build is instrumented
 		c.Sched.Auto = sched.AutoSites() && uint64(seed)%3 == 0
+		if (uint64(seed)>>8)%6 == 0 {
+			// engine option DebugWriter: every plan is explained to it at creation; nothing else
+			// may change (same flag for every op of the case, so comparisons stay like for like)
+			for i := range c.Ops {
+				c.Ops[i].Eng.Debug = true
+			}
+		}
 		c.ID = fmt.Sprintf("%s-%s-s%d-i%d", cfg.Prop, cfg.Tier, cfg.Seed, i)
 		if c.Prop == "" {
 			c.Prop = cfg.Prop
